@@ -190,9 +190,10 @@ func TestC14(t *testing.T) {
 		scfg.MaxVersion = j.maxv
 		scfg.Certificates = []tls.Certificate{leaves[j.c.name]}
 		clock := now
+		first := j.t // the target as the permissive first connection of the resumed modes uses it: no edit
 		if j.ns.hasEdit {
-			if j.t.Pre != nil || j.mode != "fresh" {
-				return // the edit cases are fresh handshakes of the plain targets
+			if j.t.Pre != nil {
+				return // the edit cases belong to the plain targets
 			}
 			name := j.ns.edit
 			j.t.Edit = func(u *tls.UConn) error { u.SetSNI(name); return nil }
@@ -218,7 +219,7 @@ func TestC14(t *testing.T) {
 			cache := tls.NewLRUClientSessionCache(4)
 			perm := nameSetting{label: "perm", serverName: j.ns.serverName, toVerify: "*"}
 			skipV := !j.c.trusted
-			h0 := RunCase(j.t, GridCase{Server: scfg}, j.ns.serverName, func(c *tls.Config) {
+			h0 := RunCase(first, GridCase{Server: scfg}, j.ns.serverName, func(c *tls.Config) {
 				mkCfg(perm, true, skipV, cache)(c)
 			}, peer.Opts{})
 			if !h0.OK() {
